@@ -33,6 +33,9 @@ static NAMES: std::sync::atomic::AtomicU64 = std::sync::atomic::AtomicU64::new(0
 static DERIVED: std::sync::atomic::AtomicU64 = std::sync::atomic::AtomicU64::new(0);
 static BATTERIES: std::sync::atomic::AtomicU64 = std::sync::atomic::AtomicU64::new(0);
 static DEEP_READS: std::sync::atomic::AtomicU64 = std::sync::atomic::AtomicU64::new(0);
+/// names at / next to the label-count limit handed out by the library: [126, 127, 128 labels]
+static LABEL_LIMIT_NAMES: [std::sync::atomic::AtomicU64; 3] = [std::sync::atomic::AtomicU64::new(0), std::sync::atomic::AtomicU64::new(0), std::sync::atomic::AtomicU64::new(0)];
+static NAME_PAIRS: std::sync::atomic::AtomicU64 = std::sync::atomic::AtomicU64::new(0);
 
 // ------------------------------------------------------------ the script
 
@@ -54,6 +57,8 @@ struct T {
     /// every accessor of every record data / option type, typed routes (deep reads)
     rd: bool,
     deep_reads: u32,
+    /// names of 126 / 127 / 128 labels (root included) handed out
+    limit_names: [u32; 3],
 }
 impl T {
     fn ev(&mut self, k: &str) {
@@ -98,6 +103,9 @@ fn use_name(t: &mut T, n: &ParsedName<&[u8]>, msg: &[u8]) {
     if fwd.last().map(|l| l.len()) != Some(0) {
         t.errs.push("name|does-not-end-with-root".into());
         return;
+    }
+    if (126..=128).contains(&fwd.len()) {
+        t.limit_names[fwd.len() - 126] += 1;
     }
     let want = wire_of(&fwd);
     if mc::wire::validate_name(&want, true).is_err() {
@@ -1587,7 +1595,7 @@ fn run_case(ctx: &Ctx, stats: &Stats, wd: &Watchdog, msg: &[u8], family: &str) {
     let deep_reads = !ctx.quick() || matches!(family, "one-item" | "pointer-chains" | "rdata-axis" | "opt-axis" | "replay");
     for run in 0..2 {
         let r = guard(|| {
-            let mut t = T { s: String::new(), names: 0, ptr_names: 0, rdata_parsed: 0, errs: vec![], derived: 0, batteries: 0, derive: run == 0, full_derived: rich, deep: !ctx.quick(), rd: deep_reads, deep_reads: 0 };
+            let mut t = T { s: String::new(), names: 0, ptr_names: 0, rdata_parsed: 0, errs: vec![], derived: 0, batteries: 0, derive: run == 0, full_derived: rich, deep: !ctx.quick(), rd: deep_reads, deep_reads: 0, limit_names: [0; 3] };
             script(msg, &mut t);
             t
         });
@@ -1611,6 +1619,9 @@ fn run_case(ctx: &Ctx, stats: &Stats, wd: &Watchdog, msg: &[u8], family: &str) {
             BATTERIES.fetch_add(a.batteries as u64, std::sync::atomic::Ordering::Relaxed);
             NAMES.fetch_add(a.names as u64, std::sync::atomic::Ordering::Relaxed);
             DEEP_READS.fetch_add(a.deep_reads as u64, std::sync::atomic::Ordering::Relaxed);
+            for k in 0..3 {
+                LABEL_LIMIT_NAMES[k].fetch_add(a.limit_names[k] as u64, std::sync::atomic::Ordering::Relaxed);
+            }
             if a.rdata_parsed > 0 || a.ptr_names > 0 {
                 stats.nontrivial.fetch_add(1, std::sync::atomic::Ordering::Relaxed);
                 stats.distinct(fnv(msg));
@@ -1623,6 +1634,251 @@ fn run_case(ctx: &Ctx, stats: &Stats, wd: &Watchdog, msg: &[u8], family: &str) {
             ctx.violation(&format!("C01|panic|{}", panic_class(p)), p, case());
         }
     }
+}
+
+// ------------------------------------- all names of one message against each other
+
+/// "Whatever is returned as a name or record can be compared": every name the
+/// message hands out (question names, owners, names inside RDATA) against
+/// every one of them (itself included), in both orders, through every
+/// comparison of ParsedName with ParsedName. Oracle: the RFC 4034 6.1 order /
+/// case-insensitive equality / octet order of the label lists (which
+/// `use_name` has checked against the independent decompressor). The records
+/// and questions themselves are compared pairwise for totality and
+/// antisymmetry. Returns (violation classes, number of ordered pairs).
+fn pairwise(msg: &[u8]) -> (Vec<String>, u64) {
+    use domain::base::cmp::CanonicalOrd;
+    use std::cmp::Ordering::Equal;
+    let mut errs: Vec<String> = Vec::new();
+    let Ok(m) = Message::from_slice(msg) else { return (errs, 0) };
+    let mut names: Vec<ParsedName<&[u8]>> = Vec::new();
+    let mut qs = Vec::new();
+    for q in m.question().take(LIMIT) {
+        match q {
+            Ok(q) => {
+                names.push(*q.qname());
+                qs.push(q);
+            }
+            Err(_) => break,
+        }
+    }
+    let mut recs = Vec::new();
+    if let Ok((_, an, ns, ar)) = m.sections() {
+        for sec in [an, ns, ar] {
+            for r in sec.take(LIMIT) {
+                let Ok(r) = r else { break };
+                names.push(r.owner());
+                if let Ok(rec) = r.into_any_record::<AllRecordData<_, ParsedName<_>>>() {
+                    match rec.data() {
+                        AllRecordData::Cname(x) => names.push(*x.cname()),
+                        AllRecordData::Ns(x) => names.push(*x.nsdname()),
+                        AllRecordData::Ptr(x) => names.push(*x.ptrdname()),
+                        AllRecordData::Dname(x) => names.push(*x.dname()),
+                        AllRecordData::Mx(x) => names.push(*x.exchange()),
+                        AllRecordData::Soa(x) => {
+                            names.push(*x.mname());
+                            names.push(*x.rname());
+                        }
+                        AllRecordData::Minfo(x) => {
+                            names.push(*x.rmailbx());
+                            names.push(*x.emailbx());
+                        }
+                        AllRecordData::Srv(x) => names.push(*x.target()),
+                        AllRecordData::Nsec(x) => names.push(*x.next_name()),
+                        AllRecordData::Rrsig(x) => names.push(*x.signer_name()),
+                        AllRecordData::Svcb(x) => names.push(*x.target()),
+                        AllRecordData::Https(x) => names.push(*x.target()),
+                        _ => {}
+                    }
+                    recs.push(rec);
+                }
+            }
+        }
+    }
+    names.truncate(16);
+    recs.truncate(16);
+    qs.truncate(16);
+    let labels: Vec<Vec<Vec<u8>>> = names.iter().map(|n| n.iter().take(300).map(|l| l.as_slice().to_vec()).collect()).collect();
+    let wires: Vec<Vec<u8>> = labels.iter().map(|l| wire_of(l)).collect();
+    let lowers: Vec<Vec<u8>> = wires.iter().map(|w| w.to_ascii_lowercase()).collect();
+    let mut pairs = 0u64;
+    for i in 0..names.len() {
+        for j in 0..names.len() {
+            pairs += 1;
+            let (a, b) = (&names[i], &names[j]);
+            let (la, lb) = (&labels[i], &labels[j]);
+            let ord = mc::wire::canonical_name_cmp(la, lb);
+            let same = mc::wire::labels_eq_ci(la, lb);
+            if a.name_cmp(b) != ord || a.cmp(b) != ord || a.partial_cmp(b) != Some(ord) || a.canonical_cmp(b) != ord {
+                errs.push("name-pairs|order-of-two-names-of-the-message-differs-from-rfc4034-order-of-their-labels".into());
+            }
+            if (*a == *b) != same || a.name_eq(b) != same || (ord == Equal) != same {
+                errs.push("name-pairs|equality-of-two-names-of-the-message-differs-from-equality-of-their-labels".into());
+            }
+            if same && hash_of(a) != hash_of(b) {
+                errs.push("name-pairs|equal-names-of-the-message-hash-differently".into());
+            }
+            if a.composed_cmp(b) != wires[i].cmp(&wires[j]) || a.lowercase_composed_cmp(b) != lowers[i].cmp(&lowers[j]) {
+                errs.push("name-pairs|composed-order-of-two-names-of-the-message-differs-from-octet-order".into());
+            }
+            if a.ends_with(b) != (lb.len() <= la.len() && mc::wire::labels_eq_ci(&la[la.len() - lb.len()..], lb)) {
+                errs.push("name-pairs|ends_with-between-two-names-of-the-message".into());
+            }
+            // (the root label ends both lists: a proper prefix never includes it)
+            if a.starts_with(b) != same {
+                errs.push("name-pairs|starts_with-between-two-names-of-the-message".into());
+            }
+        }
+    }
+    for i in 0..recs.len() {
+        for j in 0..recs.len() {
+            pairs += 1;
+            let (a, b) = (&recs[i], &recs[j]);
+            if a.cmp(b) != b.cmp(a).reverse() || a.partial_cmp(b) != Some(a.cmp(b)) || a.canonical_cmp(b) != b.canonical_cmp(a).reverse() || (a == b) != (b == a) {
+                errs.push("record-pairs|order-of-two-records-of-the-message-is-not-antisymmetric".into());
+            }
+            if i == j && (a.cmp(b) != Equal || a.canonical_cmp(b) != Equal) {
+                errs.push("record-pairs|record-not-equal-to-itself".into());
+            }
+        }
+    }
+    for i in 0..qs.len() {
+        for j in 0..qs.len() {
+            pairs += 1;
+            let (a, b) = (&qs[i], &qs[j]);
+            if a.cmp(b) != b.cmp(a).reverse() || a.canonical_cmp(b) != b.canonical_cmp(a).reverse() || (a == b) != (b == a) {
+                errs.push("question-pairs|order-of-two-questions-of-the-message-is-not-antisymmetric".into());
+            }
+        }
+    }
+    errs.sort();
+    errs.dedup();
+    (errs, pairs)
+}
+
+fn run_pairs(ctx: &Ctx, wd: &Watchdog, msg: &[u8], family: &str) {
+    let case = || json!({"message": hex(msg), "family": family, "part": "pairs"});
+    wd.enter(case);
+    let r = guard(|| pairwise(msg));
+    wd.leave();
+    match r {
+        Ok((errs, pairs)) => {
+            NAME_PAIRS.fetch_add(pairs, std::sync::atomic::Ordering::Relaxed);
+            for e in &errs {
+                ctx.violation(&format!("C01|{e}"), e, case());
+            }
+        }
+        Err(p) => {
+            ctx.violation(&format!("C01|panic|{}", panic_class(&p)), &p, case());
+        }
+    }
+}
+
+// ------------------------------------------------- the label-count axis of names
+
+/// Messages whose names sit at the LABEL-COUNT limit: a name has at most 128
+/// labels (127 one-octet labels and the root, 255 octets). Names of 126, 127,
+/// 128 labels (legal) and 129 labels (257 octets, must be refused), spelled
+/// flat, as a head with a pointer to a shared tail (to the start of a shorter
+/// name, or into the middle of a 128-label name) and through two chained
+/// pointers (head -> middle -> tail, incl. bare-pointer heads / middles and a
+/// root-only tail), so that the count is reached only after decompression;
+/// the name sits as question name (after questions holding the tails), as
+/// owner, inside RDATA of every name-bearing type of the menu, and as owner
+/// next to a twin that differs in the first label only. Labels alternate in
+/// case.
+fn label_count_messages(quick: bool) -> Vec<Vec<u8>> {
+    let ptr = |t: usize| vec![0xC0 | ((t >> 8) as u8 & 0x3F), t as u8];
+    let ones = |k: usize, c: u8| -> Vec<u8> { (0..k).flat_map(|i| [1u8, if i % 2 == 0 { c } else { c.to_ascii_uppercase() }]).collect() };
+    let rec = |owner: &[u8], rt: u16, rd: &[u8]| {
+        let mut b = owner.to_vec();
+        b.extend_from_slice(&rt.to_be_bytes());
+        b.extend_from_slice(&[0, 1, 0, 0, 0, 60]);
+        b.extend_from_slice(&(rd.len() as u16).to_be_bytes());
+        b.extend_from_slice(rd);
+        b
+    };
+    let cat = |parts: &[&[u8]]| parts.iter().flat_map(|p| p.iter().cloned()).collect::<Vec<u8>>();
+    #[derive(Clone, Copy)]
+    enum End {
+        Root,
+        /// pointer to this offset inside the tail name (which sits at 12)
+        Tail(usize),
+        /// pointer to the start of the middle name
+        Mid,
+    }
+    // (tail name, middle name (ends with a pointer to 12), number of head labels, end)
+    let mut shapes: Vec<(Option<Vec<u8>>, Option<Vec<u8>>, usize, End)> = Vec::new();
+    let flat = |labels: usize| cat(&[&ones(labels - 1, b't'), &[0]]);
+    for k in [126usize, 127, 128, 129] {
+        shapes.push((None, None, k - 1, End::Root));
+    }
+    for tl in [26usize, 27, 28, 29] {
+        shapes.push((Some(flat(tl)), None, 100, End::Tail(0)));
+    }
+    // into the middle of a 128-label name: head + (127 - skip) + root
+    for (h, skip) in [(100usize, 100usize), (100, 99), (100, 101), (1, 1), (0, 0), (127, 127)] {
+        shapes.push((Some(flat(128)), None, h, End::Tail(2 * skip)));
+    }
+    // two chained pointers: head + middle + tail labels
+    for (h, m, tl) in [(100usize, 1usize, 27usize), (100, 1, 26), (100, 1, 28), (64, 32, 32), (1, 1, 126), (0, 1, 127), (100, 0, 28), (127, 0, 1)] {
+        shapes.push((Some(flat(tl)), Some(cat(&[&ones(m, b'm'), &ptr(12)])), h, End::Mid));
+    }
+    let mut msgs = Vec::new();
+    for (tail, mid, h, end) in &shapes {
+        // the earlier items and the name, for earlier items spelled as questions or as records
+        let build = |as_questions: bool| -> (Vec<u8>, u16, Vec<u8>) {
+            let item = |n: &[u8]| if as_questions { cat(&[n, &[0, 1, 0, 1]]) } else { rec(n, 1, &[1, 2, 3, 4]) };
+            let mut pre = Vec::new();
+            let mut count = 0u16;
+            if let Some(t) = tail {
+                pre.extend(item(t));
+                count += 1;
+            }
+            let p1 = 12 + pre.len();
+            if let Some(m) = mid {
+                pre.extend(item(m));
+                count += 1;
+            }
+            let mut n = ones(*h, b'h');
+            match end {
+                End::Root => n.push(0),
+                End::Tail(o) => n.extend(ptr(12 + o)),
+                End::Mid => n.extend(ptr(p1)),
+            }
+            (pre, count, n)
+        };
+        {
+            let (pre, c, n) = build(true);
+            msgs.push(cat(&[&header(0x0100, [c + 1, 0, 0, 0]), &pre, &n, &[0, 1, 0, 1]]));
+        }
+        let (pre, c, n) = build(false);
+        let mut finals: Vec<(u16, Vec<u8>)> = vec![(1, rec(&n, 1, &[1, 2, 3, 4]))];
+        if *h > 0 {
+            let mut twin = n.clone();
+            twin[1] = b'z';
+            finals.push((2, cat(&[&rec(&n, 1, &[1, 2, 3, 4]), &rec(&twin, 1, &[1, 2, 3, 4])])));
+        }
+        let o: &[u8] = &[1, b'o', 0];
+        finals.push((1, rec(o, 5, &n)));
+        finals.push((1, rec(o, 6, &cat(&[&[1, b'm', 0], &n, &[0; 20]]))));
+        finals.push((1, rec(o, 46, &cat(&[&[0, 1, 13, 2, 0, 0, 0, 60, 0, 0, 0, 2, 0, 0, 0, 1, 0, 7], &n, &[9, 9]]))));
+        if !quick {
+            for rt in [2u16, 12, 39] {
+                finals.push((1, rec(o, rt, &n)));
+            }
+            finals.push((1, rec(o, 15, &cat(&[&[0, 5], &n]))));
+            finals.push((1, rec(o, 6, &cat(&[&n, &[1, b'r', 0], &[0; 20]]))));
+            finals.push((1, rec(o, 33, &cat(&[&[0, 1, 0, 2, 0, 3], &n]))));
+            finals.push((1, rec(o, 17, &cat(&[&n, &[0]]))));
+            finals.push((1, rec(o, 47, &cat(&[&n, &[0, 1, 0x40]]))));
+            finals.push((1, rec(o, 64, &cat(&[&[0, 1], &n]))));
+        }
+        for (k, f) in finals {
+            msgs.push(cat(&[&header(0x8400, [0, c + k, 0, 0]), &pre, &f]));
+        }
+    }
+    msgs
 }
 
 // --------------------------------------------------------- the generator
@@ -2281,6 +2537,7 @@ fn main() {
         let msg = unhex(v["case"]["message"].as_str().expect("case.message"));
         println!("replaying {} on {} octets", v["signature"], msg.len());
         run_case(&ctx, &stats, &wd, &msg, "replay");
+        run_pairs(&ctx, &wd, &msg, "replay");
         ctx.finish(json!({"evaluations": 1, "distinct_nontrivial": stats.distinct_count(), "rule": "replay", "samples": [hex(&msg)]}), &[]);
     }
     let quick = ctx.quick();
@@ -2436,7 +2693,20 @@ fn main() {
             }
         }
         stats.count_n("gen.pointer_chain_messages", msgs.len() as u64);
-        msgs.par_iter().for_each(|m| run_case(&ctx, &stats, &wd, m, "pointer-chains"));
+        msgs.par_iter().for_each(|m| {
+            run_case(&ctx, &stats, &wd, m, "pointer-chains");
+            run_pairs(&ctx, &wd, m, "pointer-chains");
+        });
+    }
+    // --- label-count axis: names of 126..=129 labels, flat / through one / through two chained
+    // pointers, at every kind of name position; plus all names of the message pairwise
+    {
+        let msgs = label_count_messages(quick);
+        stats.count_n("gen.label_count_messages", msgs.len() as u64);
+        msgs.par_iter().for_each(|m| {
+            run_case(&ctx, &stats, &wd, m, "label-count");
+            run_pairs(&ctx, &wd, m, "label-count");
+        });
     }
     // --- length axis x selector axis: per record type the product of its selector octets
     // (algorithm, digest type, flags, usage, gateway type, ...) with every tail length to a
@@ -2493,7 +2763,7 @@ fn main() {
     let cov = json!({
         "evaluations": stats.evals(),
         "distinct_nontrivial": stats.nontrivial.load(std::sync::atomic::Ordering::Relaxed).min(stats.distinct_count()),
-        "rule": "messages = header variants x items from per-field menus (names incl. pointers to every landmark, ~35 record types x RDATA variants incl. every internal length field short/long, rdlen exact/-1/+1/0/0xFFFF) for 1, 2 and 3 items; the pointer-chain family (every topology of up to three chained pointers, bare or behind one or two labels, aimed at the start of the previous name or at its pointer cell, ending at every kind of name position); every truncation of short one-item messages; every raw body over 9 symbols to the raw length. Each case runs the full read-side script twice. Every name handed out (question, owner, RDATA names, canonical_name) must be the independent decompression (mc::wire) of some position of the message and passes the name battery (label iteration from both ends, to_vec/to_bytes/to_name/compose/compose_len/as_flat_slice/try_flatten_into/flatten_into/to_cow/deref_octets/canonical forms equal to the independent wire form; ==, name_eq, name_cmp, canonical_cmp, partial_cmp, composed_cmp, lowercase_composed_cmp, starts_with, ends_with in both directions against flat names built from the independent labels: the same name, its lowercase form, the root, the parent, one label more in front / before the root, with the RFC 4034 order as oracle; hash; displays); the SAME battery is applied to every name object derived from it: the ref_octets/deref_octets views, every item of iter_suffixes(), every step of the parent() walk, of the split_first() walk and of the two alternating parent/split_first walks (incl. the refused step at the root), each against the matching suffix of the independent labels, plus equality of the same suffix reached by different routes (thorough: derivations of every derived object once more). LENGTH AXIS x SELECTOR AXIS x EVERY ACCESSOR: (rdata-axis) per record type with a variable-length tail or a selector-dependent reading (DNSKEY/CDNSKEY flags x protocol x algorithm, DS/CDS algorithm x digest type, RRSIG algorithm x labels x times x signer, NSEC window x bitmap length, NSEC3/NSEC3PARAM hash algorithm x flags x salt x hash, TLSA, SSHFP, IPSECKEY gateway type x algorithm x gateway, ZONEMD, SVCB/HTTPS every parameter key, CAA, NAPTR, TSIG, HINFO, TXT, OPENPGPKEY, NULL, A, AAAA, an unknown type) the product of the selector menus with every tail length 0..=12 (thorough 0..=70) and the neighbourhoods of 16/20/32/40/48/64 (thorough 96/128/255/256/512/1024) x fillers (zeros, ones, counting, length-prefixed; thorough letters, high bit); (opt-axis) every EDNS option code 0..=18, 26946 and unknown ones x selector prefixes (client-subnet family x prefix lengths, extended-error code, chain name) x OPTION-LENGTH 0..=50, 255, 256 (thorough 0..=80 and to 1000) x fillers, alone / announcing one octet more than RDLENGTH holds / between two other options. On these families, the one-item and pointer-chain families (thorough: all) every record additionally goes through: every public accessor of its record data type incl. the computing ones (key_tag, is_* predicates, bitmap contains vs iteration, signature time as system time, TSIG validity window, SVCB typed getters and typed value iterators, TXT text forms, character-string displays), the typed route to_record::<T>() and the zone-data route against the any-route (same acceptance, equal values, equal display), and on the typed values plain/debug/zone-style display in every DisplayKind, serde serialisation, hash, ==/partial_cmp/canonical_cmp against itself, compose/compose_canonical/rdlen; every OPT record through: raw option iteration against an independent TLV walk, the any-option iterator (item = option at its position), every accessor / Display / Debug / compose_len vs composed octets of every option type, one typed iterator and first::<T>() per option type, all typed getters, cookie standard-form and server-hash checks. non-trivial = typed RDATA or OPT option parsing succeeded at least once or a compressed name was returned; distinct = distinct message octets (hash set) among those",
+        "rule": "messages = header variants x items from per-field menus (names incl. pointers to every landmark, ~35 record types x RDATA variants incl. every internal length field short/long, rdlen exact/-1/+1/0/0xFFFF) for 1, 2 and 3 items; the pointer-chain family (every topology of up to three chained pointers, bare or behind one or two labels, aimed at the start of the previous name or at its pointer cell, ending at every kind of name position); the LABEL-COUNT family (names of 126 / 127 / 128 labels = 127 one-octet labels + root = 255 octets, and of 129 labels which must be refused; spelled flat, as 100 / 1 / 0 / 127 head labels + a pointer to the start of a 26..29-label name or into the middle of a 128-label name, and through two chained pointers head -> middle -> tail incl. bare-pointer heads and middles and a root-only tail, so that the limit is reached only after decompression; as question name behind questions holding the tails, as owner, as owner next to a twin differing in the first label, inside CNAME / SOA / RRSIG RDATA, thorough also NS / PTR / DNAME / MX / SOA mname / SRV / RP / NSEC / SVCB; labels alternate in case), whose names go through the same battery and derivations as all others; on this and the pointer-chain family additionally ALL NAMES OF THE MESSAGE PAIRWISE (every ordered pair of question names, owners and RDATA names incl. a name with itself: name_cmp / cmp / partial_cmp / canonical_cmp against the RFC 4034 order of the label lists, == / name_eq against case-insensitive label equality, hash of equal names, composed_cmp / lowercase_composed_cmp against octet order, ends_with / starts_with) and all records / all questions of the message pairwise (cmp, partial_cmp, canonical_cmp, == total and antisymmetric); every truncation of short one-item messages; every raw body over 9 symbols to the raw length. Each case runs the full read-side script twice. Every name handed out (question, owner, RDATA names, canonical_name) must be the independent decompression (mc::wire) of some position of the message and passes the name battery (label iteration from both ends, to_vec/to_bytes/to_name/compose/compose_len/as_flat_slice/try_flatten_into/flatten_into/to_cow/deref_octets/canonical forms equal to the independent wire form; ==, name_eq, name_cmp, canonical_cmp, partial_cmp, composed_cmp, lowercase_composed_cmp, starts_with, ends_with in both directions against flat names built from the independent labels: the same name, its lowercase form, the root, the parent, one label more in front / before the root, with the RFC 4034 order as oracle; hash; displays); the SAME battery is applied to every name object derived from it: the ref_octets/deref_octets views, every item of iter_suffixes(), every step of the parent() walk, of the split_first() walk and of the two alternating parent/split_first walks (incl. the refused step at the root), each against the matching suffix of the independent labels, plus equality of the same suffix reached by different routes (thorough: derivations of every derived object once more). LENGTH AXIS x SELECTOR AXIS x EVERY ACCESSOR: (rdata-axis) per record type with a variable-length tail or a selector-dependent reading (DNSKEY/CDNSKEY flags x protocol x algorithm, DS/CDS algorithm x digest type, RRSIG algorithm x labels x times x signer, NSEC window x bitmap length, NSEC3/NSEC3PARAM hash algorithm x flags x salt x hash, TLSA, SSHFP, IPSECKEY gateway type x algorithm x gateway, ZONEMD, SVCB/HTTPS every parameter key, CAA, NAPTR, TSIG, HINFO, TXT, OPENPGPKEY, NULL, A, AAAA, an unknown type) the product of the selector menus with every tail length 0..=12 (thorough 0..=70) and the neighbourhoods of 16/20/32/40/48/64 (thorough 96/128/255/256/512/1024) x fillers (zeros, ones, counting, length-prefixed; thorough letters, high bit); (opt-axis) every EDNS option code 0..=18, 26946 and unknown ones x selector prefixes (client-subnet family x prefix lengths, extended-error code, chain name) x OPTION-LENGTH 0..=50, 255, 256 (thorough 0..=80 and to 1000) x fillers, alone / announcing one octet more than RDLENGTH holds / between two other options. On these families, the one-item and pointer-chain families (thorough: all) every record additionally goes through: every public accessor of its record data type incl. the computing ones (key_tag, is_* predicates, bitmap contains vs iteration, signature time as system time, TSIG validity window, SVCB typed getters and typed value iterators, TXT text forms, character-string displays), the typed route to_record::<T>() and the zone-data route against the any-route (same acceptance, equal values, equal display), and on the typed values plain/debug/zone-style display in every DisplayKind, serde serialisation, hash, ==/partial_cmp/canonical_cmp against itself, compose/compose_canonical/rdlen; every OPT record through: raw option iteration against an independent TLV walk, the any-option iterator (item = option at its position), every accessor / Display / Debug / compose_len vs composed octets of every option type, one typed iterator and first::<T>() per option type, all typed getters, cookie standard-form and server-hash checks. non-trivial = typed RDATA or OPT option parsing succeeded at least once or a compressed name was returned; distinct = distinct message octets (hash set) among those",
         "distinct_transcript_shapes_and_messages": stats.distinct_count(),
         "exhaustive": true,
         "raw_len": rawlen,
@@ -2501,6 +2771,8 @@ fn main() {
         "derived_name_objects_exercised": DERIVED.load(std::sync::atomic::Ordering::Relaxed),
         "name_batteries_run": BATTERIES.load(std::sync::atomic::Ordering::Relaxed),
         "typed_values_and_options_through_the_accessor_battery": DEEP_READS.load(std::sync::atomic::Ordering::Relaxed),
+        "names_of_126_127_128_labels_exercised": LABEL_LIMIT_NAMES.iter().map(|c| c.load(std::sync::atomic::Ordering::Relaxed)).collect::<Vec<u64>>(),
+        "ordered_pairs_of_names_records_questions_of_one_message_compared": NAME_PAIRS.load(std::sync::atomic::Ordering::Relaxed),
         "samples": stats.samples(),
         "counters": stats.counters_json(),
     });
